@@ -4,7 +4,9 @@
    {ev:"expand", toks:[tok], init:[body], defs:[{name, members:[{ref,name}]}], all:[licence],
                  plain:{rej,set:[str]}   incremental_expansion(texts, orig=init)
                  cond :{rej,set:[str]}   set(optimize_incrementals(texts))       (token TEXTS)
-                 lic  :{rej,set:[str]}   incremental_expansion_license(.., all, Licenses(..).groups, texts)}
+                 lic  :{rej,set:[str]}   incremental_expansion_license(.., all, Licenses(..).groups, texts)
+                 unfin :{rej,set:[str]}  incremental_expansion(texts, finalize=False)                (token TEXTS)
+                 stored:{rej,set:[str]}  collapsed_restrict_to_data(((AlwaysTrue, texts),), finalize_defaults=False).defaults}
    {ev:"groups", defs:[..], flat:[{name, lics:[..]}]}                   Licenses(..).groups
    {ev:"pull",   glob:[tok], entries:[{scope, toks:[tok]}], pkg, res:{rej,set}}
                  collapsed_restrict_to_data(((AlwaysTrue, glob),), entries).pull_data(pkg)      *)
@@ -17,6 +19,17 @@ DefsOf(arr) == [g \in {arr[k].name : k \in DOMAIN arr} |->
 Cmp(tag, obs, exp) ==
     IF obs.rej # exp.rej THEN {tag \o "_rejection"}
     ELSE IF ~exp.rej /\ AsSet(obs.set) # exp.set THEN {tag \o "_set"} ELSE {}
+
+\* an observed un-finalized set (token TEXTS) of the stream ts
+Unfin(tag, o, ts, exp, U) ==
+    LET texts == AsSet(o.set)
+        C == {ts[k] : k \in {j \in DOMAIN ts : Text(ts[j]) \in texts}}
+    IN IF ~UnfinalizedDomain(ts) THEN {}
+       ELSE IF o.rej # exp.rej THEN {tag \o "_rejection"}
+       ELSE IF exp.rej THEN {}
+       ELSE (IF \E x \in texts : \A k \in DOMAIN ts : Text(ts[k]) # x THEN {tag \o "_foreign"} ELSE {})
+            \cup (IF Unambiguous(C) THEN {} ELSE {tag \o "_ambiguous"})
+            \cup (IF CondensedFor(C, ts, U) THEN {} ELSE {tag \o "_expand"})
 
 JudgeExpand(e) ==
     LET ts    == e.toks
@@ -32,6 +45,8 @@ JudgeExpand(e) ==
              ELSE (IF foreign THEN {"Condensed_foreign"} ELSE {})
                   \cup (IF CondensedFor(C, ts, U) THEN {} ELSE {"Condensed_expand"}))
        \cup Cmp("License", e.lic, lexp)
+       \cup Unfin("Unfinalized", e.unfin, ts, exp, U)
+       \cup Unfin("Stored", e.stored, ts, exp, U)
 
 JudgeGroups(e) ==
     LET exp == Flat(DefsOf(e.defs))
